@@ -97,6 +97,37 @@ def layout_events(path, sid, legacy_ok=False):
     return evs, viol, dec
 
 
+def pad(v, n):
+    v = list(v or [])[:n]
+    return v + [0] * (n - len(v))
+
+
+def field_events(s, run, path, sid):
+    """Fields events: application fields that only an independent decoder can see in full (free data of packs and
+    indexes, index key): what the decoder finds and what the reader returns must be what was given"""
+    evs = []
+    dec = jbkdec.decode_file(path, check_hash=False)
+    pk = next((p for p in jbkdec.all_packs(dec) if p["kind"] in ("c", "d")), None)
+    if pk is None:
+        return evs
+    want = pad(s.get("free_data"), 24)
+    evs.append({"ev": "Fields", "scn": sid, "what": "pack free data (decoder)", "ok": list(bytes.fromhex(pk["freeData"])) == want})
+    rd = next((e["data"] for e in run["events"] if e["ev"] == "FreeData"), None)
+    if rd is not None:
+        evs.append({"ev": "Fields", "scn": sid, "what": "pack free data (reader)", "ok": list(rd) == want})
+    if pk["kind"] == "d":
+        decl = {ix["name"]: ix for ix in s["indexes"]}
+        for ix in pk.get("indexes", []):
+            d = decl.get(ix.get("name"))
+            if d is None:
+                evs.append({"ev": "Fields", "scn": sid, "what": "index name", "ok": False})
+                continue
+            evs.append({"ev": "Fields", "scn": sid, "what": "index %s free data / key / window" % ix["name"],
+                        "ok": list(bytes.fromhex(ix["freeData"])) == pad(d.get("free_data"), 4) and ix["indexKey"] == d.get("index_key", 0)
+                        and ix["count"] == d["count"] and ix["offset"] == d["offset"] and ix["store"] == 0})
+    return evs
+
+
 def conv_value(v):
     if v["t"] == "u":
         return {"u": v["v"]}
@@ -244,7 +275,7 @@ def run(prop, tier):
     cscns = [s for s in cscns if s.get("creator", "pack") == "pack"]
     base = os.path.join(work, "bare")
     os.makedirs(base)
-    cev = []
+    cev, bare_events = [], []
     for s in cscns:
         s["dir"] = os.path.join(base, s["id"])
     runs = C.run_scenarios(binary, cscns, "C14_bare_c", timeout=900)
@@ -257,6 +288,7 @@ def run(prop, tier):
             levs, viol, _ = layout_events(os.path.join(s["dir"], "pack.jbkc"), s["id"])
             for v in viol:
                 rep.violation("%s layout %s in a bare content pack comp=%s" % (prop, v["rule"], s["comp"]), {"violation": v})
+            bare_events.extend(levs + field_events(s, runs[s["id"]], os.path.join(s["dir"], "pack.jbkc"), s["id"]))
         shutil.rmtree(s["dir"], ignore_errors=True)
     PE.validate_all(rep, prop, cscns, cev, "ContentPackTrace", PC.trace_cfg(True), sigf=PC.opsig)
     escns = [PE.random_scn(rng, i, big=False, sorted_p=0.2) for i in range(40 if tier == "quick" else 600)] + PE.directed_scns("quick")[:20]
@@ -269,8 +301,16 @@ def run(prop, tier):
         for sig, detail in problems:
             rep.violation("%s %s" % (prop, sig), detail)
         eev += evs
+        dp = os.path.join(s["dir"], "dir.jbkd")
+        if evs and os.path.exists(dp):
+            levs, viol, _ = layout_events(dp, "e" + s["id"])
+            for v in viol:
+                rep.violation("%s layout %s in a bare directory pack %s" % (prop, v["rule"], PE.esig(s)), {"violation": v})
+            bare_events.extend(levs + field_events(s, runs[s["id"]], dp, "e" + s["id"]))
         shutil.rmtree(s["dir"], ignore_errors=True)
     PE.validate_all(rep, prop, escns, eev, "EntryStoreTrace", PE.TRACE_CFG)
+    PE.validate_all(rep, prop, [dict(s, id=("e" + s["id"]) if s["kind"] == "entries" else s["id"]) for s in cscns + escns], bare_events, "Layout", LAYOUT_CFG,
+                    sigf=lambda s: (PE.esig(s) + " indexes=" + json.dumps([[i.get("free_data"), i.get("index_key")] for i in s["indexes"]])) if s["kind"] == "entries" else PC.opsig(s))
     rep.cov["traces_validated_against_impl"] = n + len(cscns) + len(escns)
     rep.cov["trace_events"] = len(events) + len(cev) + len(eev)
     rep.cov["evaluations"] = n + len(cscns) + len(escns)
